@@ -7,6 +7,11 @@ empty / partial / complete).  Per state the project is reopened and used.
   * oracle (independent of the model): nothing may raise; the history / object db that comes back is the old
     one, the one that was in memory at the save, or the empty one; pickle.load on every prefix obeys the laws
     the theorems assume (cross-checked against pickletools' opcode boundaries);
+  * writer strategies outside the model (in-place rewrite, temp file + os.replace, extra files): when the traced
+    save is not save_steps, crash states are derived from the traced operations themselves (the rope folder after
+    every prefix of the traced open/write/truncate/seek/close/replace/remove operations, byte by byte, starting
+    from the folder as it was before the save) and judged by the same oracle; the first failing one is the
+    VIOLATION's replay, and only if none fails the disagreement is reported without input;
   * correspondence: trace == save_steps, final disk == run save_steps, crash disk == model crash disk, and
     rope's outcome class / loaded value == the model's, all evaluated inside Coq (coq/C18/Runner.v) with the
     table instance of `unpickle` whose laws are re-checked there by computation.
@@ -282,14 +287,14 @@ def enc(files):
     return {n: (None if c is None else c.decode("latin-1")) for n, c in files.items()}
 
 
-def oracle_state(g, st, ob, exp):
+def oracle_state(g, st, ob, exp, allow_new=False):
     """Independent judgement of one observed crash state. Returns None or (what, file, exc name)."""
     for name, key in (("objectdb", "odb"), ("history", "hist")):
         o = ob[key]
         if o[0] == "raised":
             return ("%s raises %s" % (o[3], o[2]), name, o[2])
         allowed = [exp[name + ":old"], exp[name + ":empty"]]
-        if name in g.order:
+        if name in g.order or allow_new:
             allowed.append(exp[name + ":new"])
         if o[1] not in allowed:
             return ("the loaded %s is neither the old, the new nor the empty one" % name, name, None)
@@ -329,8 +334,10 @@ def group_term(g):
             trace.append("TOpen %s %s" % (ft, g_bool(ev[2])))
         elif ev[0] == "write":
             trace.append("TWrite %s %s" % (ft, g_bytes(ev[2].encode("latin-1"))))
-        else:
+        elif ev[0] == "close":
             trace.append("TClose %s" % ft)
+        else:                                               # truncate / seek / replace / remove: not in the model
+            trace.append("TOpen (J History) false")
     states = []
     for st, ob in zip(g.states, g.obs):
         src = {}
@@ -417,6 +424,47 @@ BROKEN = ("correspondence RopeVerif.C18.Runner (%s) between coq/C18/Persist.v an
 def signature(obj):
     if obj.get("kind") == "crash":
         return "crash:%s:%s:%s" % (obj.get("file"), obj.get("prefix_class"), obj.get("exception"))
+    if obj.get("kind") == "trace-crash":
+        return "trace-crash:%s:%s" % (obj.get("file"), obj.get("exception"))
+    return None
+
+
+def trace_states(res):
+    old_dir = {n: c.encode("latin-1") for n, c in res["old_dir"].items()}
+    trace = [ev[:2] + [ev[2].encode("latin-1")] + ev[3:] if ev[0] == "write" else ev for ev in res["trace"]]
+    return impl.trace_crash_states(old_dir, trace)
+
+
+def describe_op(res, i):
+    if i < 0:
+        return "before the save"
+    ev = res["trace"][i]
+    return "%s %s%s" % (ev[0], ev[1], " (mode %s)" % ev[3] if ev[0] == "open" else
+                        " (%d bytes)" % len(ev[2]) if ev[0] == "write" else
+                        " -> %s" % ev[2] if ev[0] == "replace" else "")
+
+
+def search_trace_states(ctx, g):
+    """The traced save is not the model's save_steps (another writer strategy): derive the crash states from
+    the traced operations themselves - the rope folder after every prefix of them, byte by byte, starting
+    from the folder as it was - and run the independent oracle on each. Returns a replay object for the
+    first failing state, or None."""
+    res = g.res
+    states = trace_states(res)
+    prefs = g.sc.get("prefs") or {}
+    ctx.count("trace_derived_crash_states", len(states))
+    chunk = 100
+    for s in range(0, len(states), chunk):
+        part = states[s:s + chunk]
+        obs = impl.observe_states(res["tree"], [enc(st[2]) for st in part], prefs, True)
+        for (i, k, files), ob in zip(part, obs):
+            ctx.case((json.dumps(g.sc, sort_keys=True), "trace", i, k), nontrivial=True)
+            verdict = oracle_state(g, None, ob, g.exp, allow_new=True)
+            if verdict is not None:
+                what, fname, exc = verdict
+                return {"kind": "trace-crash", "scenario": g.sc, "op": i, "byte": k,
+                        "operation": describe_op(res, i), "file": fname, "exception": exc, "observed": what,
+                        "folder": {n: len(c) for n, c in files.items()}}
     return None
 
 
@@ -503,10 +551,28 @@ def judge(ctx, g, gi):
                       "C18: pickle breaks an assumed law: " + a, no_input=True)
     for e in g.setup_errors[:2]:
         ctx.violation({"kind": "save", "scenario": g.sc, "observed": e}, "C18: " + e)
-    if g.unknown_files:
-        ctx.violation({"kind": "group", "scenario": g.sc, "files": g.unknown_files,
-                       "broken": BROKEN % "the save writes files the model does not know"},
-                      "C18: the save writes files outside the model: %s" % ", ".join(g.unknown_files), no_input=True)
+    if g.unknown_files or g.gcode & 3:
+        # writer strategy outside the model: crash states derived from the traced operations + oracle;
+        # the disagreement is reported without input only if no group yields a failing crash state (see run)
+        if ctx.extra.get("trace_crash_found"):
+            return
+        if ctx.extra.get("trace_searches", 0) < 4:
+            ctx.extra["trace_searches"] = ctx.extra.get("trace_searches", 0) + 1
+            found = search_trace_states(ctx, g)
+            if found is not None:
+                ctx.extra["trace_crash_found"] = True
+                ctx.violation(found, "C18: after a crash during '%s' (%d bytes of it done; rope folder then %s): %s" % (
+                    found["operation"], found["byte"], found["folder"], found["observed"]))
+                return
+        what = (["the save writes files the model does not know: " + ", ".join(g.unknown_files)] if g.unknown_files else []) \
+            + [t for b, t in ((1, "traced save differs from save_steps (order / truncation / bytes)"),
+                              (2, "final disk differs from run save_steps")) if g.gcode & b]
+        ctx.extra.setdefault("_deferred", []).append(
+            ({"kind": "group", "scenario": g.sc, "code": g.gcode, "mismatch": what, "files": g.unknown_files,
+              "trace_head": [ev[:2] + ([ev[3]] if ev[0] == "open" else []) for ev in g.res["trace"] if ev[0] != "write"][:14],
+              "broken": BROKEN % "group_code"},
+             "C18: save does not correspond to the model (%s); no crash state derived from the traced operations fails" % "; ".join(what)))
+        return
     if g.gcode != 0:
         what = [t for b, t in ((1, "traced save differs from save_steps (order / truncation / bytes)"),
                                (2, "final disk differs from run save_steps"),
@@ -601,6 +667,10 @@ def run(ctx):
         judge(ctx, g, gi)
         if ctx.too_many():
             break
+    deferred = ctx.extra.pop("_deferred", [])
+    if not ctx.extra.get("trace_crash_found"):
+        for obj, summary in deferred[:2]:
+            ctx.violation(obj, summary, no_input=True)
     sizes = [len(g.new[n]) for g in groups for n in g.order]
     ctx.extra["data_file_sizes"] = {"min": min(sizes) if sizes else 0, "max": max(sizes) if sizes else 0,
                                     "total_bytes": sum(sizes)}
@@ -636,6 +706,13 @@ def replay(ctx, obj):
         exp[name + ":old"] = old_ob[key][1] if old_ob[key][0] == "loaded" else exp[name + ":empty"]
         if name in g.order and (new_ob[key][0] != "loaded" or new_ob[key][1] != exp[name + ":new"]):
             return True
+    if kind == "trace-crash":
+        g.exp = exp
+        for (i, k, files) in trace_states(res):
+            if (i, k) == (obj["op"], obj["byte"]):
+                ob = impl.observe_states(res["tree"], [enc(files)], prefs, True)[0]
+                return oracle_state(g, None, ob, exp, allow_new=True) is not None
+        return True          # the recorded operation no longer exists: the save changed again
     if kind != "crash":
         # group / state / read level disagreements carry no failing input of their own: re-run the comparison
         import random
